@@ -89,6 +89,8 @@ static SimEventFn     g_sink;
 static int            g_fatal_in_progress;
 static uint64_t       fine_rng;
 static void           fine_reset(void);
+static uint64_t       mem_rng;
+static void           mem_reset(void);
 
 enum { O_MUTEX = 1, O_SEM = 2, O_COND = 3 };
 typedef struct { void *addr; int kind; int id; int owner; long count; } Obj;
@@ -117,7 +119,7 @@ void sim_describe(char *buf, size_t n) {
     }
 }
 size_t sim_blocked_pcs(int tid, uintptr_t *out, size_t n) {
-    if (tid < 0 || tid >= nthr || thr[tid].state < T_BLK_MUTEX || thr[tid].state > T_BLK_JOIN) return 0;
+    if (tid < 0 || tid >= nthr || !((thr[tid].state >= T_BLK_MUTEX && thr[tid].state <= T_BLK_JOIN) || (thr[tid].state == T_RUNNABLE && thr[tid].spinning))) return 0;
     size_t k = 0; for (; k < (size_t)thr[tid].nbpc && k < n; k++) out[k] = thr[tid].bpc[k];
     return k;
 }
@@ -169,7 +171,7 @@ static void record_dev(int tid) {
 }
 static void schedule(int kind) {
     int cur = me;
-    if (kind == K_BLOCKED) {   /* where does it wait: remembered for the wait-for signature of a decided deadlock */
+    if (kind == K_BLOCKED || (kind == K_YIELD && yield_streak > 399900)) {   /* where does it wait: remembered for the wait-for signature of a decided deadlock / livelock */
         uintptr_t *fp = (uintptr_t *)__builtin_frame_address(0); int k = 0;
         while (fp && k < 12) { uintptr_t ret = fp[1], *nx = (uintptr_t *)fp[0]; if (!ret) break; thr[cur].bpc[k++] = ret; if (nx <= fp || (uintptr_t)nx - (uintptr_t)fp > (1u << 20)) break; fp = nx; }
         thr[cur].nbpc = k;
@@ -274,6 +276,7 @@ void sim_start(const SimConfig *c, SimFatalFn f) {
     }
     me = 0; nthr = 1; thr[0].state = T_RUNNABLE; thr[0].joined_by = -1; thr[0].prio = (int64_t)(rnd() % 1000000);
     fine_rng = (cfg.seed * 0x9e3779b97f4a7c15ULL) | 1; if (cfg.fine_period) fine_reset();
+    mem_rng = (cfg.seed * 0xd1342543de82ef95ULL) | 1; if (cfg.mem_period) mem_reset();
     g_on = 1;
 }
 void sim_stop(void) {
@@ -310,6 +313,35 @@ void __cyg_profile_func_enter(void *fn, void *site) {
     schedule(K_PREEMPT);
 }
 void __cyg_profile_func_exit(void *fn, void *site) { (void)fn; (void)site; }
+
+/* ---- memory-access preemption: the "mem" build variant compiles the library with -fsanitize=thread, i.e. with a call in front of every
+ * load and store of C code, and links it against the functions below instead of the TSan runtime.  Every mem_period-th access (seeded,
+ * on average; the count of accesses is a function of the schedule alone, no address enters a decision) is a forced preemption point, so
+ * threads interleave *inside* code that contains no synchronisation operation and no function call: a read-modify-write under the wrong
+ * lock, a check-then-act on a shared flag (DESIGN.md 13.7). */
+static uint64_t mem_countdown, mem_rng = 0x13198a2e03707344ULL;
+static void mem_reset(void) { mem_rng ^= mem_rng << 13; mem_rng ^= mem_rng >> 7; mem_rng ^= mem_rng << 17; mem_countdown = 1 + mem_rng % (2 * cfg.mem_period); }
+static inline void mem_access(void) {
+    if (!g_on || !cfg.mem_period || me < 0) return;
+    st.mem_accesses++;
+    if (--mem_countdown) return;
+    mem_reset(); st.mem_preemptions++;
+    schedule(K_PREEMPT);
+}
+#define TSAN_HOOK(name) void name(void *a) { (void)a; mem_access(); }
+TSAN_HOOK(__tsan_read1) TSAN_HOOK(__tsan_read2) TSAN_HOOK(__tsan_read4) TSAN_HOOK(__tsan_read8) TSAN_HOOK(__tsan_read16)
+TSAN_HOOK(__tsan_write1) TSAN_HOOK(__tsan_write2) TSAN_HOOK(__tsan_write4) TSAN_HOOK(__tsan_write8) TSAN_HOOK(__tsan_write16)
+TSAN_HOOK(__tsan_unaligned_read2) TSAN_HOOK(__tsan_unaligned_read4) TSAN_HOOK(__tsan_unaligned_read8) TSAN_HOOK(__tsan_unaligned_read16)
+TSAN_HOOK(__tsan_unaligned_write2) TSAN_HOOK(__tsan_unaligned_write4) TSAN_HOOK(__tsan_unaligned_write8) TSAN_HOOK(__tsan_unaligned_write16)
+TSAN_HOOK(__tsan_volatile_read1) TSAN_HOOK(__tsan_volatile_read2) TSAN_HOOK(__tsan_volatile_read4) TSAN_HOOK(__tsan_volatile_read8) TSAN_HOOK(__tsan_volatile_read16)
+TSAN_HOOK(__tsan_volatile_write1) TSAN_HOOK(__tsan_volatile_write2) TSAN_HOOK(__tsan_volatile_write4) TSAN_HOOK(__tsan_volatile_write8) TSAN_HOOK(__tsan_volatile_write16)
+void __tsan_read_range(void *a, unsigned long n) { (void)a; (void)n; mem_access(); }
+void __tsan_write_range(void *a, unsigned long n) { (void)a; (void)n; mem_access(); }
+void __tsan_func_entry(void *pc) { (void)pc; }
+void __tsan_func_exit(void) {}
+void __tsan_init(void) {}
+void __tsan_vptr_update(void **a, void *b) { (void)a; (void)b; }
+void __tsan_vptr_read(void **a) { (void)a; }
 
 /* hooks called from /repo (weak there) */
 void svt_verif_spin(void) { if (g_on) { st.spins++; schedule(K_YIELD); } }
